@@ -6,7 +6,7 @@ from fractions import Fraction
 from typing import List
 
 from ..core import AnalysisError, External, FunctionInfo, ModuleInfo, call_name, const_value, kwarg, unparse, walk_no_nested
-from ..exprs import cmp_canon, conjuncts, inline, monomial, single_defs
+from ..exprs import canon_unparse, cmp_canon, conjuncts, inline, monomial, single_defs
 from ..flow import possibly_unbound
 from .common import F_BF, F_BM, F_QLF, F_QLM, F_QTF, F_QTM, F_SEL, calls, cfg_of, construct, loc, path_str, short
 from .carver import _canon_set, dominating_def
@@ -362,5 +362,5 @@ def check_defaults(ctx, rule: str):
         ctx.ob(rule, construct(fi, "quantitative lists go to dtype 'float', qualitative lists to 'str'"), ok, loc(fi))
     # rank based statistics
     fk = repo.find_function(f"{F_QTM}::kruskal_measure")
-    ok = "kruskal(*tuple((x[~nans & (y == y_value)] for y_value in y_values)))" in unparse(fk.node)
+    ok = "kruskal(*tuple((x[~nans&(y==y_value)]fory_valueiny_values)))" in canon_unparse(fk.node)
     ctx.ob(rule, construct(fk, "kruskal_measure = scipy kruskal over the groups of x by class of y (rank based)"), ok, loc(fk))
